@@ -31,6 +31,7 @@ pub trait TemplateRegistry: Sized {
         // register common filters
         tera.register_filter("escape_js", escape_js_filter);
         tera.register_filter("add_types_prefix", add_types_prefix_filter);
+        tera.register_filter("ts_key", ts_key_filter);
 
         // register registry specific templates
         Self::register_templates(&mut tera)?;
@@ -60,6 +61,31 @@ fn escape_js_filter(value: &Value, _args: &HashMap<String, Value>) -> tera::Resu
         Ok(Value::String(escaped))
     } else {
         Err("escape_js filter expects a string".into())
+    }
+}
+
+/// Filter to render a property key: a plain identifier as-is, any other name
+/// (kebab-case, spaces, leading digits, non-ASCII, ...) as a quoted string literal
+fn ts_key_filter(value: &Value, _args: &HashMap<String, Value>) -> tera::Result<Value> {
+    if let Some(key) = value.as_str() {
+        let mut chars = key.chars();
+        let is_identifier = chars
+            .next()
+            .is_some_and(|c| c.is_ascii_alphabetic() || c == '_' || c == '$')
+            && chars.all(|c| c.is_ascii_alphanumeric() || c == '_' || c == '$');
+        if is_identifier {
+            Ok(Value::String(key.to_string()))
+        } else {
+            let escaped = key
+                .replace('\\', "\\\\")
+                .replace('"', "\\\"")
+                .replace('\n', "\\n")
+                .replace('\r', "\\r")
+                .replace('\t', "\\t");
+            Ok(Value::String(format!("\"{}\"", escaped)))
+        }
+    } else {
+        Err("ts_key filter expects a string".into())
     }
 }
 
